@@ -473,7 +473,8 @@ class Machine:
         raise EngineError(f"subscript store on {obj!r} not modelled")
 
     def st_Return(self, s: ast.Return) -> None:
-        raise ReturnSig(self.eval(s.value) if s.value is not None else NONE)
+        hint = self.contract.returns if isinstance(s.value, (ast.Dict, ast.List)) and self.contract.returns and self.contract.returns.startswith(("Dict[", "ODict[", "List[")) else None
+        raise ReturnSig(self.eval(s.value, hint) if s.value is not None else NONE)
 
     def st_Raise(self, s: ast.Raise) -> None:
         if s.exc is None:
@@ -1214,6 +1215,13 @@ class Machine:
             if c.kind == "dict":
                 from .maps import dict_nonempty
                 return dict_nonempty(self, c)
+            if c.kind == "set":
+                # non-empty iff it has a member: b => w is a member (skolem witness); not b => the set is the empty set
+                b = z3.Bool(fresh_name("set_nonempty"))
+                w = z3.Const(fresh_name("set_witness"), c.value.sort.key.z3())
+                self.ctx.assume(z3.Implies(b, z3.Select(c.value.term, w)))
+                self.ctx.assume(z3.Implies(z3.Not(b), c.value.term == z3.K(c.value.sort.key.z3(), z3.BoolVal(False))))
+                return b
         for h in self.world.truth_hooks:
             r = h(self, v)
             if r is not None:
@@ -1319,6 +1327,20 @@ class Machine:
                 r = h(self, a, b)
                 if r is not None and r is not NotImplemented:
                     return r
+            # Optional operands: Python compares the objects themselves, so a user-defined __eq__ applies to the wrapped values too
+            if (isinstance(a, VOpt) or isinstance(b, VOpt)) and getattr(self.world, "py_eq_hooks", []):
+                ua = a.sort.elem.wrap(a.sort.val(a.term)) if isinstance(a, VOpt) else a
+                ub = b.sort.elem.wrap(b.sort.val(b.term)) if isinstance(b, VOpt) else b
+                inner = None
+                for h in self.world.py_eq_hooks:
+                    r = h(self, ua, ub)
+                    if r is not None and r is not NotImplemented:
+                        inner = r
+                        break
+                if inner is not None:
+                    na = a.sort.is_none(a.term) if isinstance(a, VOpt) else z3.BoolVal(False)
+                    nb = b.sort.is_none(b.term) if isinstance(b, VOpt) else z3.BoolVal(False)
+                    return z3.Or(z3.And(na, nb), z3.And(z3.Not(na), z3.Not(nb), inner))
         for h in self.world.eq_hooks:
             r = h(self, a, b)
             if r is not None and r is not NotImplemented:
